@@ -125,4 +125,105 @@ theorem run_units (sl : Int) (hsl : sl ≤ rl) (us : List WUnit) (hu : ∀ u, u 
       ih (fun x hx => hu x (List.mem_cons_of_mem _ hx))]
 
 end
+theorem Merge.of_map {α β : Type} (f : α → β) : ∀ {as bs : List α} {cs' : List β},
+    Merge (as.map f) (bs.map f) cs' → ∃ cs, cs' = cs.map f ∧ Merge as bs cs := by
+  intro as bs cs' h
+  generalize ha : as.map f = as' at h
+  generalize hb : bs.map f = bs' at h
+  induction h generalizing as bs with
+  | nil =>
+    cases as with
+    | nil =>
+      cases bs with
+      | nil => exact ⟨[], rfl, .nil⟩
+      | cons _ _ => simp at hb
+    | cons _ _ => simp at ha
+  | left _ ih =>
+    cases as with
+    | nil => simp at ha
+    | cons a as =>
+      simp only [List.map_cons, List.cons.injEq] at ha
+      obtain ⟨cs, e, hm⟩ := ih ha.2 hb
+      exact ⟨a :: cs, by simp [e, ha.1], .left hm⟩
+  | right _ ih =>
+    cases bs with
+    | nil => simp at hb
+    | cons b bs =>
+      simp only [List.map_cons, List.cons.injEq] at hb
+      obtain ⟨cs, e, hm⟩ := ih ha hb.2
+      exact ⟨b :: cs, by simp [e, hb.1], .right hm⟩
+
+/-- The write call that carries a whole unit. -/
+def WUnit.call (sl : Int) : WUnit → WriteCall
+  | .msg p => ⟨.sender, (frame sl p).getD []⟩
+  | .pong q => ⟨.reader, pongFrame q⟩
+
+theorem WUnit.call_bytes (sl : Int) (u : WUnit) : (u.call sl).bytes = u.bytes sl := by
+  cases u <;> rfl
+
+/-- With the one-call shape, the sender's calls are exactly the frames of the messages that fit. -/
+theorem senderCalls_units (sl : Int) (ps : List (List UInt8)) :
+    senderCalls sl ps = ((ps.filter (fits sl)).map WUnit.msg).map (WUnit.call sl) := by
+  unfold senderCalls
+  induction ps with
+  | nil => rfl
+  | cons p ps ih =>
+    cases hf : fits sl p with
+    | false =>
+      have : frameWrites sl p = none := by
+        unfold frameWrites; unfold fits at hf
+        rw [if_pos (by simpa using hf)]
+      simp only [List.filterMap_cons, this, List.filter_cons, hf]
+      exact ih
+    | true =>
+      have hw : frameWrites sl p = some [(frame sl p).getD []] := by
+        unfold frame frameWrites; unfold fits at hf
+        rw [if_neg (by simpa using hf)]
+        simp [Gen.senderWriteParts]
+      simp only [List.filterMap_cons, hw, List.filter_cons, hf, if_true, List.flatten_cons,
+        List.map_cons, List.cons_append, List.nil_append]
+      rw [ih]
+      rfl
+
+theorem readerCalls_units (sl : Int) (qs : List Pong) :
+    readerCalls qs = (qs.map WUnit.pong).map (WUnit.call sl) := by
+  unfold readerCalls
+  induction qs with
+  | nil => rfl
+  | cons q qs ih =>
+    rw [List.flatMap_cons, ih]
+    simp [pongCalls, Gen.pongWriteParts, writePart, WUnit.call, pongFrame]
+
+/-- The sender after cancellation, when it drains: every queued message's calls, in order,
+    whatever the scheduler's picks. -/
+theorem afterCancel_drains {M : Type} (w : M → List WriteCall) (oracle : List Bool) (q : List M) :
+    afterCancel true w oracle q = q.flatMap w := by
+  induction q generalizing oracle with
+  | nil => cases oracle <;> rfl
+  | cons m q ih =>
+    cases oracle with
+    | nil => rfl
+    | cons o os =>
+      cases o with
+      | true => simp [afterCancel, ih os]
+      | false => rfl
+
+theorem wire_append (a b : List WriteCall) : wire (a ++ b) = wire a ++ wire b := by
+  simp [wire]
+
+/-- All the calls for a queue of messages put the messages' frames on the wire. -/
+theorem wire_messageCalls {M : Type} (ser : M → Option (List UInt8)) (sl : Int) (q : List M) :
+    wire (q.flatMap (messageCalls ser sl)) = sendAll ser sl q := by
+  unfold sendAll
+  induction q with
+  | nil => rfl
+  | cons m q ih =>
+    rw [List.flatMap_cons, wire_append, ih]
+    unfold messageCalls
+    cases hs : ser m with
+    | none => simp [wire, hs]
+    | some p =>
+      simp only [wire_senderCalls, List.filterMap_cons, hs, Option.bind_some]
+      cases frame sl p <;> simp
+
 end Nexus.Frame
